@@ -172,6 +172,20 @@ def run_exec_case(case):
                         signature=_classify(nk, va, kw, 'sigstring'))
     if m.getTaggedValue('flavour') != 'x':
         raise Violation('function attribute not a tagged value', signature='C18:tagged')
+    # a second function object from the same ``def`` (same code object) with other defaults / attributes, described
+    # after the first one: a description belongs to the function, not to its code object
+    if nopt and mode in (0, 1):
+        import types
+        f2 = types.FunctionType(f.__code__, f.__globals__, f.__name__, tuple(d + 500 for d in f.__defaults__), f.__closure__)
+        f2.__kwdefaults__ = dict(f.__kwdefaults__) if f.__kwdefaults__ else None
+        f2.flavour = 'y'
+        m2 = fromFunction(f2, imlevel=mode)
+        exp3 = _expected(f2, mode)
+        got3 = dict(m2.getSignatureInfo()['optional'])
+        if got3 != exp3['optional'] or m2.getTaggedValue('flavour') != 'y':
+            raise Violation('%s: a second function sharing the code object (defaults %r) is described with optional=%r, '
+                            'inspect.signature says %r' % (src.splitlines()[0], f2.__defaults__, got3, exp3['optional']),
+                            signature='C18:shared-code-object')
 
 
 def make_e_exec(params, part, nparts):
